@@ -217,7 +217,9 @@ class Chipset(object):
             ack = Frame(self.transport.read())
             if ack.type == 'ack':
                 rsp = Frame(self.transport.read())
-                if rsp.type == 'data':
+                if rsp.type == 'data' and len(rsp.data) < 2:
+                    log.error("expected rsp code but got less than 2 byte")
+                elif rsp.type == 'data':
                     if rsp.data[0] == 0xD7 and rsp.data[1] == cmd_code + 1:
                         return rsp.data[2:]
                     else:
@@ -267,8 +269,9 @@ class Chipset(object):
         timeout = min((timeout + (1 if timeout > 0 else 0)) * 10, 0xFFFF)
         data = self.send_command(0x04,
                                  struct.pack("<H", timeout) + bytes(data))
-        if data is None:
+        if data is None or len(data) < 4:
             # no proper acknowledge or response frame from the chipset
+            # or less than the communication status in the response
             raise IOError(errno.EIO, os.strerror(errno.EIO))
         if data and tuple(data[0:4]) != (0, 0, 0, 0):
             raise CommunicationError(data[0:4])
@@ -325,8 +328,10 @@ class Chipset(object):
 
         data = self.send_command(0x48, data)
 
-        if data is None:
+        if data is None or len(data) < 7:
             # no proper acknowledge or response frame from the chipset
+            # or less than the receive parameters and communication
+            # status in the response
             raise IOError(errno.EIO, os.strerror(errno.EIO))
         if data and tuple(data[3:7]) != (0, 0, 0, 0):
             raise CommunicationError(data[3:7])
